@@ -32,7 +32,8 @@ pub struct Case {
 
 pub fn family(tier: Tier, seed: u64) -> Vec<SysSpec> {
     // hand-built dead-end systems first (the sweeps reach them only at deviation 3)
-    let mut out = dead_end_extras();
+    let mut out = corner_extras();
+    out.extend(dead_end_extras());
     let quick_sk = ["K1", "K2", "K3", "K5", "K7", "K4", "K6"];
     for name in quick_sk {
         let sk = skeleton_generated(name, false);
@@ -60,7 +61,7 @@ pub fn family(tier: Tier, seed: u64) -> Vec<SysSpec> {
         .into_iter()
         .enumerate()
         .map(|(i, s)| {
-            let sk = s.name.split('-').next().unwrap_or("").to_string();
+            let sk = if s.name.contains("-deadend") { "deadend".to_string() } else { s.name.split('-').next().unwrap_or("").to_string() };
             let r = rank.entry(sk).or_insert(0);
             *r += 1;
             (*r, i, s)
@@ -153,7 +154,7 @@ pub fn cases(tier: Tier, seed: u64, rep: &Report) -> Vec<Case> {
     let mut keyed: Vec<(u64, Case)> = out
         .into_iter()
         .map(|c| {
-            let sk = c.spec.name.split('-').next().unwrap_or("").to_string();
+            let sk = if c.spec.name.contains("-deadend") { "deadend".to_string() } else { c.spec.name.split('-').next().unwrap_or("").to_string() };
             let r = rank.entry(sk).or_insert(0);
             *r += 1;
             (*r, c)
